@@ -2,7 +2,7 @@
 //! every exchange is logged (status, headers, identity of the decoded body, or "dropped"); Trace_Server judges.
 use crate::container::{file_path, remove_path};
 use crate::indep;
-use crate::mem::payload;
+
 use crate::util::*;
 use serde_json::{json, Value};
 use std::collections::{BTreeMap, HashMap};
@@ -183,7 +183,8 @@ fn src_tiles(case: &Value) -> Vec<(u8, u32, u32, u32)> {
 	case["tiles"].as_array().unwrap().iter().map(|t| (t[0].as_u64().unwrap() as u8, t[1].as_u64().unwrap() as u32, t[2].as_u64().unwrap() as u32, t[3].as_u64().unwrap() as u32)).collect()
 }
 fn raw_payload(p: u32) -> Vec<u8> {
-	payload(p, 200 + (p as usize % 5) * 37, true)
+	// payloads 3 and 4 are themselves gzip / brotli streams: content that looks like an encoding is still content
+	crate::mem::payload_c(p, 200 + (p as usize % 5) * 37, match p { 3 => 2, 4 => 3, _ => 1 })
 }
 
 pub fn tiles(bin: &str, input: &str, output: &str, dir: &str) -> Value {
